@@ -836,24 +836,17 @@ func (ck *checker) check(how, args string, ex expect, obs callObs, path string, 
 		}
 		var k []string
 		if 0 < len(ranks) {
-			// the pattern of the skipped ranks, not the ranks themselves (keeps one defect to a few signatures)
-			even := true
-			for i := range expIns {
-				even = even && ran[expIns[i]] == (i%2 == 0)
-			}
-			if even {
-				k = append(k, fmt.Sprintf("skipped-every-second-of-%d", len(expIns)))
-			} else {
-				viaP := false
-				for _, t := range obsIns {
-					viaP = viaP || t[0] == 'n'
-				}
-				if viaP {
-					k = append(k, "skipped-after-next-method-p")
-				} else {
-					k = append(k, "skipped-other")
+			// name the expected :around methods that WERE entered, by specificity rank (1 = most specific)
+			var entered []string
+			for i, t := range expIns {
+				if ran[t] {
+					entered = append(entered, strconv.Itoa(i+1))
 				}
 			}
+			if len(entered) == 0 {
+				entered = []string{"none"}
+			}
+			k = append(k, fmt.Sprintf("entered#%s-of-%d", strings.Join(entered, "+"), len(expIns)))
 		}
 		if extra {
 			k = append(k, "continued-past-an-around-that-does-not-call-next")
